@@ -309,7 +309,8 @@ func alphabet() []metax.Cmd {
 func prologue() []metax.Cmd {
 	return []metax.Cmd{
 		metax.FromText("CreateDataNode 10.0.0.1:8400 10.0.0.1:8401 -"),
-		metax.FromText(fmt.Sprintf("CreateDatabase db0 rp autogen 1 0 %d 0 0 0 0 0 1", 2*H)),
+		// shard groups of 2h, index groups of 4h: a boundary computed with the wrong duration shows
+		metax.FromText(fmt.Sprintf("CreateDatabase db0 rp autogen 1 0 %d 0 0 %d 0 0 1", 2*H, 4*H)),
 		metax.FromText("CreateDbPtView db0"),
 		metax.FromText("CreateMeasurement db0 autogen m0 hash:t0 0 f0:1:_"),
 	}
